@@ -494,9 +494,11 @@ class C18(core.Check):
         "relabellings of the input and right-handed; guards/constants/recipes of the source are regenerated with ast and "
         "tied to the model (T_C18_tie_*); round 6b: for planar-sided right-handed blocks a clear view implies Canonical "
         "(T_C18_clear_view_canonical), vertex objects at one position (merged patches) are returned together "
-        "(T_C18_duplicates_together), get_common_point rejects with DegenerateGeometryError only (repair 70219c0). Only "
+        "(T_C18_duplicates_together), get_common_point rejects with DegenerateGeometryError only (repair 70219c0); round 6c: "
+        "under the hull contract (validator c18.contract, no view involved) every returning run, ties and dubious views "
+        "included, is one of the 48 relabellings and right-handed (T_C18_returns_relabelling). Only "
         "validator/oracle-checked: that the returned numbering of a block with warped sides satisfies Canonical "
-        "as stated on the side area vectors (the theorem is stated on the hull triangles), that views without a clear winner give one of the 48 relabellings, and that scipy's hull is a "
+        "as stated on the side area vectors (the theorem is stated on the hull triangles), that views without a clear winner on blocks whose adjacent sides are less than 60 degrees apart give one of the 48 relabellings, and that scipy's hull is a "
         "triangulation of the six sides (hypothesis of the theorem, decided per case)."
     )
 
